@@ -30,13 +30,14 @@ def build_cases(tier, seed):
         cs.append(("remove", c))
     for r in W3:
         cs.append(("single", (c3, r, None)))
-        cs.append(("single", (c3, r, (("A", 1), ("C", 2)))))
-    cs.append(("single", (c3, None, (("A", 1), ("B", F(1, 2))))))
+        cs.append(("single", (c3, r, ((c3[0], 1), (c3[2], 2)))))
+    cs.append(("single", (c3, None, ((c3[0], 1), (c3[1], F(1, 2))))))
     for r in fam.weak_family(4):
         cs.append(("single", (fam.cands(4), r, None)))
     # ballots that list a candidate more than once (as loaders can produce them)
     reps = [tuple((x,) for x in s) for L in (2, 3) for s in itertools.product(c3, repeat=L) if len(set(s)) < L]
-    reps += [(("A", "B"), ("A",)), (("A",), ("A", "B")), (("A", "B"), ("B", "C")), (("C",), ("A", "B"), ("C",))]
+    a_, b_, c_ = c3
+    reps += [((a_, b_), (a_,)), ((a_,), (a_, b_)), ((a_, b_), (b_, c_)), ((c_,), (a_, b_), (c_,))]
     for r in reps:
         cs.append(("single", (c3, r, None)))
     # candidate names contained in one another (a str argument must not be matched as a substring)
@@ -52,7 +53,7 @@ def build_cases(tier, seed):
     for c in fam.prof_list(W3, 2, (1, F(3, 2)), c3):
         cs.append(("addres", c))
     # cleaning module: untied ballots with repetitions and blanks as the loaders produce them
-    alpha = ("A", "B", "C", None)
+    alpha = c3 + (None,)
     seqs = [s for L in range(1, 4) for s in itertools.product(alpha, repeat=L)]
     maxb = 2 if tier == "quick" else 3
     for L in range(1, maxb + 1):
@@ -338,7 +339,8 @@ def run_clean(i, combo, cnt, out):
     except Exception as e:
         out["viols"].append(_viol("exception", "deduplicate_profiles", i, f"{type(e).__name__}: {e}"))
     # remove_noncands for every subset of the alphabet
-    for removed in ([], [None], ["A"], ["A", None], ["A", "B", "C"], ["A", "B", "C", None], ["Z"]):
+    a_, b_, c_ = fam.cands(3)
+    for removed in ([], [None], [a_], [a_, None], [a_, b_, c_], [a_, b_, c_, None], ["Z"]):
         cnt["executions"] += 1
         try:
             res = C.remove_noncands(prof, removed)
@@ -367,7 +369,7 @@ def run_clean(i, combo, cnt, out):
     # remove_empty_ballots: add an empty ballot at each position
     for pos in range(len(ballots) + 1):
         bl2 = ballots[:pos] + (Ballot(weight=F(7)),) + ballots[pos:]
-        p2 = PreferenceProfile(ballots=bl2, candidates=("A", "B", "C", "Q"))
+        p2 = PreferenceProfile(ballots=bl2, candidates=fam.cands(3) + ("Q",))
         for keep in (False, True):
             cnt["executions"] += 1
             try:
